@@ -727,7 +727,7 @@ class KnitPacker(Packer):
         :param indices: The list of indices to query
         :param key_filter: An optional filter to limit the keys returned.
         """
-        all_index = CombinedGraphIndex(indices)
+        all_index = CombinedGraphIndex(indices, reload_func=self._reload_func)
         if key_filter is None:
             return all_index.iter_all_entries()
         else:
